@@ -71,6 +71,15 @@ def analyse_init(ctx, cls, P):
         return orig_call(e, T)
     fe.T.call_cb = call
     fe._call = call
+
+    def delegate0(cname, _ctx=ctx, _me=cls.name):
+        # attributes of a shared module-level instance of another objective class (read in this constructor)
+        if cname == _me or cname not in model.classes:
+            raise AnalysisError("%s.__init__ refers to an instance of itself" % _me)
+        ci = model.classes[cname]
+        ca, _ = analyse_init(_ctx, ci, {})
+        return ci, ca
+    fe.delegate = delegate0
     body = list(strip_doc(init.body))
     paths = []
 
